@@ -3,7 +3,10 @@ package c08
 import (
 	"bytes"
 	"fmt"
+	"os"
+	"path/filepath"
 	"strings"
+	"sync"
 	"testing"
 	"time"
 
@@ -24,16 +27,17 @@ type repeatCase struct {
 	// Negate: add a negated copy of a subset of samples (profile-diff like ties: equal magnitude, opposite sign)
 	NegMask int
 	Trim    bool
+	Twin    bool // list: two functions of one name and file with different start lines, sampled far apart
 }
 
 var tieOpts = gen.Opts{Alpha: gen.Plain, MaxSamples: 8, MaxDepth: 5, MaxLines: 3, MinTypes: 1, MaxTypes: 2, SmallVals: true, AnyIDs: true, NoHugeIDs: true,
 	Labels: true, NumLabels: true, EmptyStacks: true, NoMapping: true, Unsym: true, LosslessU: true, Columns: true, NearDup: true}
 
-var formats = []string{"top", "tree", "peek", "dot", "callgrind", "tags", "traces", "raw", "proto", "topproto", "text"}
+var formats = []string{"top", "tree", "peek", "dot", "callgrind", "tags", "traces", "raw", "proto", "topproto", "text", "list", "list"}
 
 func genRepeat(t *rapid.T) *repeatCase {
 	p := rep.GenProfile(t, tieOpts)
-	c := &repeatCase{P: p, C: rep.GenConf(t, p, formats), NegMask: rapid.IntRange(0, 255).Draw(t, "negmask"), Trim: rapid.Bool().Draw(t, "trim")}
+	c := &repeatCase{P: p, C: rep.GenConf(t, p, formats), NegMask: rapid.IntRange(0, 255).Draw(t, "negmask"), Trim: rapid.Bool().Draw(t, "trim"), Twin: rapid.Bool().Draw(t, "twin")}
 	return c
 }
 
@@ -57,6 +61,21 @@ func tieProfile(c *repeatCase) *profile.Profile {
 		gp.Samples = append(gp.Samples, m)
 	}
 	p := gp.Build().Copy()
+	if c.Twin && c.C.Format == "list" && len(p.Function) >= 2 {
+		a, b := p.Function[0], p.Function[1]
+		a.Name, a.SystemName, a.Filename, a.StartLine = "twin", "twin", "a.go", 1
+		b.Name, b.SystemName, b.Filename, b.StartLine = "twin", "twin", "a.go", 40
+		for _, l := range p.Location {
+			for i := range l.Line {
+				switch l.Line[i].Function {
+				case a:
+					l.Line[i].Line = 100
+				case b:
+					l.Line[i].Line = 50
+				}
+			}
+		}
+	}
 	// conflicting units for the numeric tags of several keys (warnings must come in a fixed order too)
 	if c.NegMask&1 != 0 {
 		for i, s := range p.Sample {
@@ -81,6 +100,12 @@ func checkRepeat(c *repeatCase, o *vk.Obs) []string {
 	rep.Classify(p, c.C, o, idx)
 	fl := c.C.Flags()
 	fl["trim"] = fmt.Sprint(c.Trim)
+	if c.C.Format == "list" {
+		// annotated source listing of every function; the sources exist under a scratch directory
+		fl["list"] = "."
+		fl["source_path"] = sourceDir()
+		fl["trim_path"] = "/usr/src"
+	}
 	var first string
 	var firstErr string
 	ties := false
@@ -397,4 +422,22 @@ func checkOrder(c *orderCase, o *vk.Obs) []string {
 func TestPropFetchOrder(t *testing.T) {
 	vk.Main(t, vk.Spec[orderCase]{ID: "C08", Facet: "fetchorder", Quick: 300, Thorough: 2000, Gen: genOrder, Check: checkOrder, Journal: true,
 		Rule: "2..4 distinct sources over one universe fetched concurrently through a gating Fetcher plug-in; the same command is run twice with a different source forced to complete last; -proto (re-serialised), -raw, -traces and -top output must be byte-identical; every case is non-trivial"})
+}
+
+var srcOnce sync.Once
+
+// sourceDir holds a 120-line source file for every file name the generator uses.
+func sourceDir() string {
+	dir := filepath.Join(os.Getenv("VERIF_SCRATCH"), "c08src")
+	srcOnce.Do(func() {
+		for _, f := range []string{"main.go", "a.go", "b.go", "src/x.cc", "src/y.cc", "lib/z.h", "w.c"} {
+			var b strings.Builder
+			for i := 1; i <= 120; i++ {
+				fmt.Fprintf(&b, "%s line %d\n", f, i)
+			}
+			os.MkdirAll(filepath.Dir(filepath.Join(dir, f)), 0o755)
+			os.WriteFile(filepath.Join(dir, f), []byte(b.String()), 0o644)
+		}
+	})
+	return dir
 }
